@@ -59,8 +59,8 @@ class C02(Prop):
             if len(ys) <= 4:
                 for inc in (True, False):
                     yield {"stream": "exact", "f": "median", "level": "7/8", "inc": inc, "y": [str(v) for v in ys], "w": None}
-        for k in range(1500 if tier == "quick" else 30000):
-            n = rng.choice([1, 2, 3, 4, 6, 9, 14, 25, 40]) if rng.random() < 0.85 else rng.randint(41, 120 if tier == "quick" else 600)
+        for k in range(1500 if tier == "quick" else 15000):
+            n = rng.choice([1, 2, 3, 4, 6, 9, 14, 25, 40]) if rng.random() < 0.85 else rng.randint(41, 120 if tier == "quick" else 200)
             c = {
                 "stream": "random",
                 "f": rng.choice(["quantile", "quantile", "quantile", "median"]),
